@@ -7,6 +7,7 @@ import JumanjiModel.Env.Snake.Lemmas
 import JumanjiModel.Env.Snake.BoundsLemmas
 import JumanjiModel.Env.Snake.EpisodeLemmas
 import JumanjiModel.Prim.Float
+import JumanjiModel.Prim.FloatLemmas
 open Jm Jx Snake
 
 namespace Props.C04
@@ -278,4 +279,36 @@ example : RndKeeps01 id := fun _ h0 h1 => ⟨h0, h1⟩
 example : Jx.roundF32 0 = 0 ∧ Jx.roundF32 1 = 1 := by decide +kernel
 /-- the bound on `step_count` is attained: 2×3 board, limit 1, one step -/
 example : (step id ⟨2, 3, 1⟩ (reset id ⟨2, 3, 1⟩ 0 0 5).1 1 0).2.obs.stepCount = 1 := by decide +kernel
+
+/-! #### the rounding hypothesis discharged for the float32 model (`Jx.roundF32`, Prim/FloatLemmas.lean) -/
+
+/-- `Jx.roundF32` (nearest binary32, ties to even) is monotone on all of `Rat` and fixes 0 and 1 -/
+theorem snake_roundF32_mono_fix :
+    (∀ x y : Rat, x ≤ y → Jx.roundF32 x ≤ Jx.roundF32 y) ∧ Jx.roundF32 0 = 0 ∧ Jx.roundF32 1 = 1 :=
+  ⟨fun _ _ h => Jx.roundF32_mono h, Jx.roundF32_zero, Jx.roundF32_one⟩
+
+/-- hence it keeps the unit interval: the hypothesis `RndKeeps01` of the bounds theorems holds for the
+rounding the bridge uses -/
+theorem snake_rndKeeps01_roundF32 : RndKeeps01 Jx.roundF32 :=
+  snake_rndKeeps01_of_mono Jx.roundF32 snake_roundF32_mono_fix.1 Jx.roundF32_zero Jx.roundF32_one
+
+/-- hypothesis-free (no assumption on the rounding) versions for the float32 model: reset -/
+theorem snake_reset_obs_in_bounds_roundF32 (cfg : Cfg) (hr hc : Nat) (d : Nat) (htl : 0 ≤ cfg.timeLimit) :
+    ObsInBounds cfg (reset Jx.roundF32 cfg hr hc d).2.obs :=
+  snake_reset_obs_in_bounds Jx.roundF32 snake_rndKeeps01_roundF32 cfg hr hc d htl
+
+/-- float32 model: every step from a consistent state of a running episode, every action value, every draw -/
+theorem snake_step_obs_in_bounds_roundF32 (cfg : Cfg) (s : State) (a : Int) (d : Nat) (hC : Consistent cfg s)
+    (h1 : s.stepCount < cfg.timeLimit) : ObsInBounds cfg (step Jx.roundF32 cfg s a d).2.obs :=
+  snake_step_obs_in_bounds Jx.roundF32 snake_rndKeeps01_roundF32 cfg s a d hC h1
+
+/-- float32 model: the same from the invariant `NonNeg`, which every step preserves -/
+theorem snake_step_obs_in_bounds_nonNeg_roundF32 (cfg : Cfg) (s : State) (a : Int) (d : Nat) (hn : NonNeg s)
+    (h1 : s.stepCount < cfg.timeLimit) :
+    ObsInBounds cfg (step Jx.roundF32 cfg s a d).2.obs ∧ NonNeg (step Jx.roundF32 cfg s a d).1 :=
+  snake_step_obs_in_bounds_nonNeg Jx.roundF32 snake_rndKeeps01_roundF32 cfg s a d hn h1
+
+/-- the hypotheses are satisfiable: the reset state of a 2×3 board with limit 1 is `NonNeg` and running -/
+example : NonNeg (reset Jx.roundF32 ⟨2, 3, 1⟩ 0 0 5).1 ∧ (reset Jx.roundF32 ⟨2, 3, 1⟩ 0 0 5).1.stepCount < 1 :=
+  ⟨Snake.reset_nonNeg _ _ _ _ _, by decide +kernel⟩
 end Props.C01
